@@ -501,3 +501,61 @@ Proof.
     destruct (polar_loop_accept_proof M _ _ _ _ _ E1) as [H1 [H2 [H3 _]]].
     split; [cbn [length fst]; lia|]. constructor; [cbn [fst snd]; repeat split; assumption|exact HF].
 Qed.
+
+(* ---------------- one pair update approaches its target and never overshoots ---------------- *)
+(* d' = d (1 + lambda (r - d - tol)/(d + tol)) is the embedded distance of the pair after the update (theorem
+   pair_update_distance).  For 0 <= lambda <= 1: a pair that is too short (d + tol <= r) gets longer but not longer
+   than r; a pair that is too long gets shorter but not shorter than r d/(d + tol).  With the step doubled
+   (lambda/2 -> lambda, mutant m03) the pair overshoots its target. *)
+Theorem pair_update_no_overshoot_proof (lam tol r d : Q) :
+  0 <= d -> 0 < tol -> 0 <= r -> 0 <= lam -> lam <= 1 ->
+  let d' := d * (1 + lam * (r - d - tol) / (d + tol)) in
+  (d + tol <= r -> d <= d' /\ d' <= r) /\
+  (r <= d + tol -> r * d / (d + tol) <= d' /\ d' <= d).
+Proof.
+  intros Hd Ht Hr Hl0 Hl1 d'.
+  assert (Hp : 0 < d + tol) by lra.
+  set (q := (r - d - tol) / (d + tol)).
+  assert (Hq : q * (d + tol) == r - d - tol) by (unfold q; field; lra).
+  assert (Ed : d' == d + lam * (d * q)) by (unfold d', q; field; lra).
+  assert (Er : r * d / (d + tol) == d + d * q) by (unfold q; field; lra).
+  split; intros Hc.
+  - assert (Hq0 : 0 <= q).
+    { unfold q. apply Qle_shift_div_l; [exact Hp|]. lra. }
+    assert (Hdq : 0 <= d * q) by (apply Qmult_le_0_compat; assumption).
+    assert (Hdq' : d * q <= r - d - tol) by (rewrite <- Hq; nra).
+    assert (H1 : 0 <= lam * (d * q)) by (apply Qmult_le_0_compat; assumption).
+    assert (H2 : lam * (d * q) <= d * q) by nra.
+    rewrite Ed. split; lra.
+  - assert (Hq0 : q <= 0).
+    { unfold q. apply Qle_shift_div_r; [exact Hp|]. lra. }
+    assert (Hdq : d * q <= 0) by nra.
+    assert (H1 : lam * (d * q) <= 0) by nra.
+    assert (H2 : d * q <= lam * (d * q)) by nra.
+    rewrite Ed, Er. split; lra.
+Qed.
+
+Theorem pair_update_full_step_overshoots_proof :
+  exists lam tol r d : Q,
+    0 <= d /\ 0 < tol /\ d + tol <= r /\ lam == 2 /\
+    r < d * (1 + lam * (r - d - tol) / (d + tol)).
+Proof.
+  exists 2, (1 # 100), 2, 1. repeat split; try (vm_compute; discriminate); vm_compute; reflexivity.
+Qed.
+
+(* ---------------- the shipped uniform_random() answers in [0, 1) ---------------- *)
+(* contract of the uniform oracle assumed by local_indices_spec (us_ok), discharged for the shipped generator:
+   every std::rand answer 0 <= r <= RAND_MAX gives 0 <= u < 1, hence floor(u * k) is a valid neighbour position *)
+Theorem uniform_of_rand_unit_proof (M : positive) (r : Z) :
+  (0 <= r < Z.pos M)%Z -> 0 <= uniform_of_rand M r /\ uniform_of_rand M r < 1.
+Proof.
+  intros [H0 H1]. unfold uniform_of_rand, Qle, Qlt. cbn [Qnum Qden]. split; lia.
+Qed.
+
+Theorem uniform_draw_in_range_proof (M : positive) (r : Z) (k : nat) :
+  (0 < k)%nat -> (0 <= r < Z.pos M)%Z ->
+  (0 <= draw k (uniform_of_rand M r) < Z.of_nat k)%Z.
+Proof.
+  intros Hk Hr. destruct (uniform_of_rand_unit_proof M r Hr) as [H0 H1].
+  exact (draw_range k _ Hk H0 H1).
+Qed.
